@@ -90,16 +90,16 @@ theorem poisson_nonneg (N K : ℕ) (u w : Mat) (hu : ∀ i a, 0 ≤ u i a) (hw :
   exact Finset.sum_nonneg fun a _ => Finset.sum_nonneg fun b _ => mul_nonneg (chat_nonneg u hu _ _ _) (hw _ _)
 
 theorem mult_nonneg (d : Data) (u w : Mat) (hu : ∀ i a, 0 ≤ u i a) (hw : ∀ a b, 0 ≤ w a b)
-    (hA : ∀ e, 0 ≤ d.A e) (e : ℕ) : 0 ≤ mult d u w e :=
-  div_nonneg (hA e) (poisson_nonneg _ _ u w hu hw _)
+    (hA : ∀ e < d.E, 0 ≤ d.A e) (e : ℕ) (he : e < d.E) : 0 ≤ mult d u w e :=
+  div_nonneg (hA e he) (poisson_nonneg _ _ u w hu hw _)
 
 theorem wUpdate_nonneg (d : Data) (u w r : Mat) (hu : ∀ i a, 0 ≤ u i a) (hw : ∀ a b, 0 ≤ w a b)
-    (hA : ∀ e, 0 ≤ d.A e) (hr : ∀ a b, 0 ≤ r a b) (a b : ℕ) : 0 ≤ wUpdate d u w r a b := by
+    (hA : ∀ e < d.E, 0 ≤ d.A e) (hr : ∀ a b, 0 ≤ r a b) (a b : ℕ) : 0 ≤ wUpdate d u w r a b := by
   unfold wUpdate
   rw [wNum_eq, wDen_eq]
   apply div_nonneg
-  · exact mul_nonneg (hw a b) (Finset.sum_nonneg fun e _ =>
-      mul_nonneg (mult_nonneg d u w hu hw hA e) (chat_nonneg u hu _ _ _))
+  · exact mul_nonneg (hw a b) (Finset.sum_nonneg fun e he =>
+      mul_nonneg (mult_nonneg d u w hu hw hA e (mem_range.mp he)) (chat_nonneg u hu _ _ _))
   · exact add_nonneg (chat_nonneg u hu _ _ _) (hr a b)
 
 theorem wNum_symm (d : Data) (u w : Mat) (a b : ℕ) (h : w a b = w b a) :
@@ -145,20 +145,20 @@ theorem colSum_ge (N : ℕ) (u : Mat) (hu : ∀ i a, 0 ≤ u i a) (i : ℕ) (hi 
   exact Finset.single_le_sum (f := fun j => u j c) (fun j _ => hu j c) (mem_range.mpr hi)
 
 theorem uNum_nonneg (d : Data) (u w : Mat) (hu : ∀ i a, 0 ≤ u i a) (hw : ∀ a b, 0 ≤ w a b)
-    (hA : ∀ e, 0 ≤ d.A e) (i : ℕ) (hi : i < d.N) (a : ℕ) : 0 ≤ uNum d u w i a := by
+    (hA : ∀ e < d.E, 0 ≤ d.A e) (i : ℕ) (hi : i < d.N) (a : ℕ) : 0 ≤ uNum d u w i a := by
   unfold uNum
   simp only [sumTo_eq]
   apply mul_nonneg (hu i a)
   apply Finset.sum_nonneg; intro c _
   apply mul_nonneg _ (hw c a)
   rw [Finset.sum_mul, ← Finset.sum_sub_distrib]
-  apply Finset.sum_nonneg; intro e _
+  apply Finset.sum_nonneg; intro e he
   rw [← mul_sub]
   unfold weighting inc
   split
   · rename_i hie
     have := edgeSum_ge d.N u hu (d.edge e) i hi hie c
-    have hm := mult_nonneg d u w hu hw hA e
+    have hm := mult_nonneg d u w hu hw hA e (mem_range.mp he)
     rw [one_mul]
     exact mul_nonneg hm (by linarith)
   · simp
@@ -174,7 +174,7 @@ theorem uDen_nonneg (d : Data) (u w : Mat) (hu : ∀ i a, 0 ≤ u i a) (hw : ∀
   exact mul_nonneg (hw c a) (by have := colSum_ge d.N u hu i hi c; linarith)
 
 theorem uUpdate_nonneg (d : Data) (u w r : Mat) (hu : ∀ i a, 0 ≤ u i a) (hw : ∀ a b, 0 ≤ w a b)
-    (hsym : ∀ a < d.K, ∀ b < d.K, w a b = w b a) (hA : ∀ e, 0 ≤ d.A e) (hr : ∀ i a, 0 ≤ r i a)
+    (hsym : ∀ a < d.K, ∀ b < d.K, w a b = w b a) (hA : ∀ e < d.E, 0 ≤ d.A e) (hr : ∀ i a, 0 ≤ r i a)
     (i : ℕ) (hi : i < d.N) (a : ℕ) (ha : a < d.K) : 0 ≤ uUpdate d u w r i a := by
   unfold uUpdate
   exact div_nonneg (uNum_nonneg d u w hu hw hA i hi a)
